@@ -364,13 +364,21 @@ func (cp *CollectingProcess) decodeDataSet(dataBuffer *bytes.Buffer, obsDomainID
 	}
 
 	for dataBuffer.Len() > 0 {
+		remaining := dataBuffer.Len()
 		elements := make([]entities.InfoElementWithValue, 0, len(template)+cp.numExtraElements)
 		for _, ie := range template {
 			var length int
 			if ie.Len == entities.VariableLength { // string / octet array
-				length = getFieldLength(dataBuffer)
+				length, err = getFieldLength(dataBuffer)
+				if err != nil {
+					return nil, err
+				}
 			} else {
 				length = int(ie.Len)
+			}
+			// Never build a field from fewer bytes than its length.
+			if dataBuffer.Len() < length {
+				return nil, fmt.Errorf("data set is truncated: field %q requires %d bytes, only %d left", ie.Name, length, dataBuffer.Len())
 			}
 			element, err := entities.DecodeAndCreateInfoElementWithValue(ie, dataBuffer.Next(length))
 			if err != nil {
@@ -382,6 +390,11 @@ func (cp *CollectingProcess) decodeDataSet(dataBuffer *bytes.Buffer, obsDomainID
 				continue
 			}
 			elements = append(elements, element)
+		}
+		// A template with no fields (or only zero-length fields) defines empty records: no
+		// amount of data can be decoded with it, and this loop would never terminate.
+		if dataBuffer.Len() == remaining {
+			return nil, fmt.Errorf("template %d with obsDomainID %d defines zero-length records, cannot decode data set", templateID, obsDomainID)
 		}
 		err = dataSet.AddRecordV2(elements, templateID)
 		if err != nil {
@@ -505,12 +518,17 @@ func getMessageLength(reader *bufio.Reader) (int, error) {
 
 // getFieldLength returns string field length for data record
 // (encoding reference: https://tools.ietf.org/html/rfc7011#appendix-A.5)
-func getFieldLength(dataBuffer *bytes.Buffer) int {
-	oneByte, _ := dataBuffer.ReadByte()
+func getFieldLength(dataBuffer *bytes.Buffer) (int, error) {
+	oneByte, err := dataBuffer.ReadByte()
+	if err != nil {
+		return 0, fmt.Errorf("data set is truncated: cannot read variable-length field length: %w", err)
+	}
 	if oneByte < 255 { // string length is less than 255
-		return int(oneByte)
+		return int(oneByte), nil
 	}
 	var lengthTwoBytes uint16
-	util.Decode(dataBuffer, binary.BigEndian, &lengthTwoBytes)
-	return int(lengthTwoBytes)
+	if err := util.Decode(dataBuffer, binary.BigEndian, &lengthTwoBytes); err != nil {
+		return 0, fmt.Errorf("data set is truncated: cannot read variable-length field length: %w", err)
+	}
+	return int(lengthTwoBytes), nil
 }
